@@ -14,6 +14,7 @@ THEOREMS = [
     "C15_pushdown_refuted",
     "C15_matched_iff_exists_followed_by",
     "C15_preceded_by_refuted",
+    "C15_preceded_blocked_group_empty",
     "C15_matched_iff_exists_preceded_by_outside_known",
     "C15_limit_bounds",
 ]
@@ -126,8 +127,9 @@ def side_ok(wh, ty, fields):
     return True if t is None else eval_row(t, fields)
 
 
-def eval_pair(e, a, b):
-    """WHERE read on a pair: pa.* about the a-event, pb.* about the b-event, un-prefixed about both"""
+def eval_pair(e, a, b, da, db):
+    """WHERE read on a pair: pa.* about the a-event, pb.* about the b-event; an un-prefixed field that exactly one of the two
+    schemas declares (da, db) is addressed to that type, any other un-prefixed field to both"""
     if e[0] == "c":
         if e[1] == TA:
             return eval_row(leaf(None, e[2], e[3], e[4]), a)
@@ -135,12 +137,17 @@ def eval_pair(e, a, b):
             return eval_row(leaf(None, e[2], e[3], e[4]), b)
         if e[1]:
             return True
+        ina, inb = e[2] in da, e[2] in db
+        if ina and not inb:
+            return eval_row(e, a)
+        if inb and not ina:
+            return eval_row(e, b)
         return eval_row(e, a) and eval_row(e, b)
     if e[0] == "!":
-        return not eval_pair(e[1], a, b)
+        return not eval_pair(e[1], a, b, da, db)
     if e[0] == "&":
-        return eval_pair(e[1], a, b) and eval_pair(e[2], a, b)
-    return eval_pair(e[1], a, b) or eval_pair(e[2], a, b)
+        return eval_pair(e[1], a, b, da, db) and eval_pair(e[2], a, b, da, db)
+    return eval_pair(e[1], a, b, da, db) or eval_pair(e[2], a, b, da, db)
 
 
 def gen_where(rng, depth, fields_a, fields_b, conj_only=False):
@@ -178,7 +185,7 @@ def zones_tok(zones, fields):
         return "-"
     out = []
     for flags, rows in zones:
-        rs = ";".join(",".join([hx(r["k"]), "n" if r["t"] is None else str(r["t"])] + [hx(r["f"][f]) for f in fields]) for r in rows)
+        rs = ";".join(",".join(["~" if r["k"] is None else hx(r["k"]), "n" if r["t"] is None else str(r["t"])] + [hx(r["f"][f]) for f in fields]) for r in rows)
         out.append(f"{flags}:{rs}")
     return "/".join(out)
 
@@ -217,17 +224,25 @@ def gen_fn(rng, prefilter):
 # ------------------------------------------------------------------ engine-level cases
 def gen_eng(rng, idx):
     """events of two types with unique position u; the case line reuses the seq_match syntax (one zone per type = the stored
-    events in STORE order) followed by the placement: <shards>:<ops> where ops = S<type index><row index> | F (FLUSH), ',' separated"""
+    events in STORE order) followed by the placement: <shards><i|s|o>:<ops>  (link field declared int / string / optional
+    int) where ops = S<type index><row index> | F (FLUSH), ',' separated"""
     fa, fb = ["x"], ["y"]
-    nk = rng.choice([1, 2, 3])
+    lkind = rng.choice(["i", "i", "i", "s", "o"])
     times = [rng.range(0, 12) for _ in range(6)]
-    links = [str(rng.range(1, nk)) for _ in range(4)]
+    if rng.chance(1, 8):
+        times += [-rng.range(1, 9), -1]
+    if lkind == "s":
+        links = [rng.choice(["5", "05", "x", "7", "+5", "x y"]) for _ in range(4)]
+    else:
+        links = [str(rng.range(1, rng.choice([1, 2, 3]))) for _ in range(4)]
+        if lkind == "o":
+            links += [None, None]
     ev = {}
     for ty, f, n in ((TA, fa, rng.range(0, 6)), (TB, fb, rng.range(0, 6))):
         ev[ty] = [{"k": rng.choice(links), "t": rng.choice(times), "f": {f[0]: str(rng.range(0, 3))}} for _ in range(n)]
+    flushed = rng.choice(["mem", "mem", "flush_all"])
     # placements with rows both in memory and in segments are left to C03: there the plain QUERY of one type already drops
     # flushed rows non-deterministically (see notes/C15.md), so a sequence result over them is not reproducible
-    flushed = rng.choice(["mem", "mem", "flush_all"])
     wh = None
     if rng.chance(3, 5):
         wh = gen_where(rng, rng.range(0, 2), fa, fb, conj_only=rng.chance(1, 2))
@@ -236,19 +251,16 @@ def gen_eng(rng, idx):
     lk = rng.choice(["FB", "PB"])
     lim = rng.choice(["-", "-", "-", "1", "2", "3"])
     order = [(0, i) for i in range(len(ev[TA]))] + [(1, i) for i in range(len(ev[TB]))]
-    # shuffle
     for i in range(len(order) - 1, 0, -1):
         j = rng.below(i + 1)
         order[i], order[j] = order[j], order[i]
     ops = [f"S{t}{i}" for t, i in order]
     if flushed == "flush_all":
         ops.append("F")
-    elif flushed == "mixed" and ops:
-        ops.insert(rng.range(1, len(ops)), "F")
     shards = rng.choice([1, 1, 3])
     line = (f"seq_eng {lk} {lim} {rpn(wh)} {hx(TA)} {hx(TB)} {hx('x')} {hx('y')} "
-            f"{zones_tok([('LT', ev[TA])], fa)} {zones_tok([('LT', ev[TB])], fb)} {shards}:{','.join(ops) if ops else '-'}")
-    show = (f"[{shards} shard(s), {flushed}] QUERY {TA} {'FOLLOWED' if lk == 'FB' else 'PRECEDED'} BY {TB} LINKED BY k USING TIME t"
+            f"{zones_tok([('LT', ev[TA])], fa)} {zones_tok([('LT', ev[TB])], fb)} {shards}{lkind}:{','.join(ops) if ops else '-'}")
+    show = (f"[{shards} shard(s), {flushed}, k {dict(i='int', s='string', o='int | null')[lkind]}] QUERY {TA} {'FOLLOWED' if lk == 'FB' else 'PRECEDED'} BY {TB} LINKED BY k USING TIME t"
             + (f" WHERE {sql(wh)}" if wh else "") + ("" if lim == "-" else f" LIMIT {lim}")
             + " | " + TA + ": " + " ".join(f"(k={r['k']},t={r['t']},x={r['f']['x']})" for r in ev[TA])
             + " | " + TB + ": " + " ".join(f"(k={r['k']},t={r['t']},y={r['f']['y']})" for r in ev[TB]))
@@ -271,7 +283,7 @@ def cases(rng, tier):
         out.append(gen_fn(rng, False))
     for _ in range(1500 if quick else 50000):
         out.append(gen_fn(rng, True))
-    for i in range(60 if quick else 2000):
+    for i in range(300 if quick else 5000):
         out.append(gen_eng(rng, i))
     return out
 
@@ -303,7 +315,7 @@ def parse_zones(tok, fields):
             continue
         for r in rows.split(";"):
             c = r.split(",")
-            out.append({"pos": len(out), "k": unhx(c[0]).decode() if "L" in flags else None,
+            out.append({"pos": len(out), "k": (None if c[0] == "~" else unhx(c[0]).decode()) if "L" in flags else None,
                         "t": (None if c[1] == "n" else int(c[1])) if "T" in flags else None,
                         "f": {f: unhx(c[2 + i]).decode() for i, f in enumerate(fields)}})
     return out
@@ -329,11 +341,14 @@ def run_engine_case(line):
     import engine
     c = parse_case(line)
     shards, ops = c["place"].split(":")
+    lkind = shards[-1]
+    shards = shards[:-1]
+    ktype = {"i": "int", "s": "string", "o": "int | null"}[lkind]
     e = engine.Engine(shards=int(shards))
     try:
         e.start()
         for ty, f in ((TA, "x"), (TB, "y")):
-            r = e.cmd(f'DEFINE {ty} FIELDS {{ k: "int", t: "int", {f}: "int", u: "int" }}')
+            r = e.cmd(f'DEFINE {ty} FIELDS {{ k: "{ktype}", t: "int", {f}: "int", u: "int" }}')
             if "200" not in r.get("out", ""):
                 return f"ENGINE_ERR define {r}"
         evs = {0: c["A"], 1: c["B"]}
@@ -346,7 +361,9 @@ def run_engine_case(line):
                     t, i = int(op[1]), int(op[2:])
                     ev = evs[t][i]
                     ty, f = (TA, "x") if t == 0 else (TB, "y")
-                    payload = {"k": int(ev["k"]), "t": ev["t"], f: int(ev["f"][f]), "u": ev["pos"]}
+                    payload = {"t": ev["t"], f: int(ev["f"][f]), "u": ev["pos"]}
+                    if ev["k"] is not None:
+                        payload["k"] = ev["k"] if lkind == "s" else int(ev["k"])
                     r = e.cmd(f'STORE {ty} FOR ctx{(i + t) % 3} PAYLOAD {json.dumps(payload)}')
                     if "200" not in r.get("out", ""):
                         return f"ENGINE_ERR store {r}"
@@ -521,7 +538,7 @@ def failing(c, impl):
         if wh is None:
             return True
         if eng:
-            return eval_pair(wh, row_fields(a), row_fields(b))
+            return eval_pair(wh, row_fields(a), row_fields(b), ["k", "t", "u"] + pc["fa"], ["k", "t", "u"] + pc["fb"])
         # function level: the rows are what the per-type sub-queries delivered; each side must satisfy its own conditions
         return side_ok(wh, TA, row_fields(a)) and side_ok(wh, TB, row_fields(b))
 
@@ -568,10 +585,10 @@ def oracle(c, impl):
 
 CLASS_OF = {
     # failure kind -> candidate classes in order; a class applies only if the model raised its flag for the case
-    "missing": ["PrecededByBlockedByEarlyA", "CrossTypeOrNot", "TimeNotU64Ordered", "SubQueryInexact"],
+    "missing": ["PrecededByBlockedByEarlyA", "UnprefixedFieldAppliedToBothTypes", "CrossTypeOrNot", "TimeNotU64Ordered", "SubQueryInexact"],
     "pair_time": ["TimeNotU64Ordered"],
-    "pair_link": ["LinkTextAliasesInteger"],
-    "pair_where": ["CrossTypeOrNot"],
+    "pair_link": ["AbsentLinkGroupedAsNull", "LinkTextAliasesInteger"],
+    "pair_where": ["UnprefixedFieldAppliedToBothTypes", "CrossTypeOrNot"],
 }
 
 
